@@ -148,3 +148,9 @@ func specFirstMem(o *OperandPegImpl) *MemoryInfo {
 //@ requires[A13] o.bitMode == 16 || o.bitMode == 32
 //@ ensures[none] specFirstMem(o) == nil ==> result0 == 0
 //@ ensures[sib] specFirstMem(o) != nil && SpecAddrSize(specFirstMem(o), int(o.bitMode)) != 0 ==> result0 == SpecSibBytes(specFirstMem(o), int(o.bitMode))
+
+// The operand parser (pigeon) is outside every contract (assumption A1); what its callers rely on:
+//@ func FromString
+//@ props C01 C13
+//@ option trusted
+//@ ensures[nonnil] result1 == nil ==> result0 != nil
